@@ -8,6 +8,7 @@ import BV.C07.ScriptLemmas
 import BV.C07.Commit
 import BV.C07.CommitLegacy
 import BV.C07.CacheKey
+import BV.C07.ExpectLemmas
 import BV.C07.CacheLemmas
 import BV.Generated.C07
 namespace BV.C07
@@ -303,6 +304,37 @@ theorem digest_commits_bip341 (H : Bytes → Bytes) (ht : UInt32) (idx : Nat)
     AgreeOn (bip341Committed ht idx) c₁ c₂ := by
   have := H_inj hd; subst this
   exact Commit.bip341_injective H ht idx annex ext c₁ c₂ w₁ w₂ hok m₁ h₁ h₂
+
+/-! ### the expectation used for the signing cases is agreement on the committed set -/
+
+/-- The answer the driver gives for a helper-signed input after a mutation ("verified" iff
+`Expect.stillVerifies`) is exactly: the original and the mutated context agree on `Committed ht idx`
+(for taproot also on the annex of the signed input; for legacy with the SIGHASH_SINGLE
+degenerate case handled as `legacy_single_bug` says). -/
+theorem expectation_iff_agree (ht : UInt32) (idx : Nat) (c₁ c₂ : Ctx) :
+    (Expect.stillVerifies .wit ht idx c₁ c₂ = true ↔ AgreeOn (bip143Committed ht idx) c₁ c₂) ∧
+    (Expect.stillVerifies .tap ht idx c₁ c₂ = true ↔
+      AgreeOn (bip341Committed ht idx) c₁ c₂ ∧ Expect.ownAnnex idx c₁ = Expect.ownAnnex idx c₂) ∧
+    (Expect.degenerate ht idx c₁ = false → Expect.degenerate ht idx c₂ = false →
+      (Expect.stillVerifies .legacy ht idx c₁ c₂ = true ↔ AgreeOn (legacyCommitted ht idx) c₁ c₂)) ∧
+    (Expect.degenerate ht idx c₁ = true → Expect.degenerate ht idx c₂ = true →
+      Expect.stillVerifies .legacy ht idx c₁ c₂ = true) ∧
+    (Expect.degenerate ht idx c₁ ≠ Expect.degenerate ht idx c₂ →
+      Expect.stillVerifies .legacy ht idx c₁ c₂ = false) := by
+  refine ⟨?_, ?_, ?_, ?_, ?_⟩
+  · simp only [Expect.stillVerifies]
+    exact Expect.byFields_iff _ c₁ c₂
+  · simp only [Expect.stillVerifies, Bool.and_eq_true, beq_iff_eq]
+    rw [show (fun f => !Expect.committed .tap ht idx f) = (fun f => !bip341Committed ht idx f) from rfl,
+      Expect.byFields_iff]
+  · intro h1 h2
+    simp only [Expect.stillVerifies, h1, h2, Bool.false_and, Bool.false_eq_true, if_false, bne_self_eq_false]
+    exact Expect.byFields_iff _ c₁ c₂
+  · intro h1 h2
+    simp [Expect.stillVerifies, h1, h2]
+  · intro h
+    cases h1 : Expect.degenerate ht idx c₁ <;> cases h2 : Expect.degenerate ht idx c₂ <;>
+      simp_all [Expect.stillVerifies]
 
 /-! ### signature cache -/
 
